@@ -84,6 +84,11 @@ impl RestorerJob {
             });
 
             for (task_id, job_task) in job.tasks.iter_mut() {
+                if !matches!(job_task.state, JobTaskState::Waiting) {
+                    // The outcome of this task was already restored (and counted)
+                    // while processing a previous submit of this job
+                    continue;
+                }
                 if let Some(task) = self.tasks.get_mut(task_id) {
                     if task.crash_counter > 0 || task.instance_id.is_some() {
                         new_tasks.adjust_instance_id_and_crash_counters.insert(
